@@ -934,13 +934,13 @@ func SkipAllInvalidReferenceEntriesForRef(storer gitstore.Storer, targetRef stri
 // irrespective of the ref it was associated with, and we can infer things like
 // the active developers who could have signed the commit.
 func GetFirstReferenceUpdaterEntryForCommit(storer gitstore.Storer, commitID githash.Hash) (ReferenceUpdaterEntry, []*AnnotationEntry, error) {
-	// We check entries in pairs. In the initial case, we have the latest entry
-	// and its parent. At all times, the parent in the pair is being tested.
-	// If the latest entry is a descendant of the target commit, we start
-	// checking the parent. The first pair where the parent entry is not
-	// descended from the target commit, we return the other entry in the pair.
+	// We walk back from the latest entry and remember the oldest entry whose
+	// target is the commit or a descendant of it. The walk cannot stop at the
+	// first entry that does not know the commit: entries for other references,
+	// or for a reference that was rewound, may sit between the latest entry
+	// and the one that recorded the commit first.
 
-	firstEntry, firstAnnotations, err := GetLatestReferenceUpdaterEntry(storer, ForNonGittufReference())
+	iteratorEntry, iteratorAnnotations, err := GetLatestReferenceUpdaterEntry(storer, ForNonGittufReference())
 	if err != nil {
 		if errors.Is(err, ErrRSLEntryNotFound) {
 			return nil, nil, ErrNoRecordOfCommit
@@ -948,34 +948,34 @@ func GetFirstReferenceUpdaterEntryForCommit(storer gitstore.Storer, commitID git
 		return nil, nil, err
 	}
 
-	knowsCommit, err := storer.KnowsCommit(firstEntry.GetTargetID(), commitID)
-	if err != nil {
-		return nil, nil, err
-	}
-	if !knowsCommit {
-		return nil, nil, ErrNoRecordOfCommit
-	}
-
+	var (
+		firstEntry       ReferenceUpdaterEntry
+		firstAnnotations []*AnnotationEntry
+	)
 	for {
-		iteratorEntry, iteratorAnnotations, err := GetNonGittufParentReferenceUpdaterEntryForEntry(storer, firstEntry)
-		if err != nil {
-			if errors.Is(err, ErrRSLEntryNotFound) {
-				return firstEntry, firstAnnotations, nil
-			}
-			return nil, nil, err
-		}
-
 		knowsCommit, err := storer.KnowsCommit(iteratorEntry.GetTargetID(), commitID)
 		if err != nil {
 			return nil, nil, err
 		}
-		if !knowsCommit {
-			return firstEntry, firstAnnotations, nil
+		if knowsCommit {
+			firstEntry = iteratorEntry
+			firstAnnotations = iteratorAnnotations
 		}
 
-		firstEntry = iteratorEntry
-		firstAnnotations = iteratorAnnotations
+		iteratorEntry, iteratorAnnotations, err = GetNonGittufParentReferenceUpdaterEntryForEntry(storer, iteratorEntry)
+		if err != nil {
+			if errors.Is(err, ErrRSLEntryNotFound) {
+				break
+			}
+			return nil, nil, err
+		}
 	}
+
+	if firstEntry == nil {
+		return nil, nil, ErrNoRecordOfCommit
+	}
+
+	return firstEntry, firstAnnotations, nil
 }
 
 // GetReferenceUpdaterEntriesInRange returns a list of reference entries between
